@@ -232,7 +232,8 @@ CLAIMS["C06"] = dict(
          "(broadcast_spec), succeeds on exactly the numpy shapes (1,), (p,), (n,) with p=1, (n,p), (1,p), (1,1) and a broadcastable (p,1) column (broadcast_accepts_iff), "
          "raises ValueError only for ragged input or a non-broadcastable (p,1) column and AssertionError otherwise (broadcast_error_class); column j of what the kernel sees is "
          "the j-th NAMED state in the order given and row i is time i (solution_selection); with target_param the k-th value is bound to the k-th supplied name (theta_bound_by_name); cost = sum_i sum_j kernel(y_ij, x_i[idxOf name_j], w_ij, spread_ij) (cost_is_loss); "
-         "square cost is 0 when the data equal the model values (square_cost_zero_at_truth, any ring). Tied to the code on every run: _setWeight_or_spread and get_state_index "
+         "square cost is 0 when the data equal the model values (square_cost_zero_at_truth, any ring); replicate observations (equal model states at two observation times) get the same prediction "
+         "(replicate_observations_same_prediction). Tied to the code on every run: _setWeight_or_spread and get_state_index "
          "against the Lean driver exactly (accepted and rejected shapes, exception class and site); cost / residual / costIV of the five real loss classes against scipy.stats "
          "log-densities of an independent DOP853 (1e-12) trajectory of the Lean-assembled right-hand side, for 1-3 observed states in any order, every weight / spread shape, "
          "target_param / target_state subsets in any order. Histories: the values a loss object holds over any sequence of calls are modelled (Held / step / outputs: unrollState_target, "
